@@ -255,6 +255,10 @@ Section Machine.
     | CRead raw d v =>
         let '(cs, found, i', n) := op_read ops raw d (x_in x) in
         let s := x_sh x in
+        (* "input contains a nul byte": nothing is assigned, exit status 3 *)
+        if existsb (fun c => N.eqb (fst c) 0) cs then
+          (mkX (mkSh (s_ps s) (s_vars s) 3) i' (x_off x + n) (x_evs x), false)
+        else
         (mkX (mkSh (s_ps s) (set_var v (read_value cs) (s_vars s)) (if found then 0 else 1))
              i' (x_off x + n) (x_evs x), false)
     | CSlurp =>
